@@ -92,6 +92,19 @@ def tlc(module, cwd, args=(), timeout=900, workers=1, java_opts=None):
     return p
 
 
+def apalache_inductive(module, cwd, cinit="ConstInit", timeout=900):
+    """Init => IndInv, IndInv /\\ Next => IndInv', IndInv => Safety with Apalache. Raises MachineryError unless all three pass."""
+    runs = [("Init", "IndInv", 0), ("IndInit", "IndInv", 1), ("IndInit", "Safety", 0)]
+    for init, inv, length in runs:
+        cmd = ["timeout", str(timeout), "apalache-mc", "check", "--init=" + init, "--inv=" + inv, "--cinit=" + cinit,
+               "--length=%d" % length, "--out-dir=" + os.path.join(cwd, "_apalache-out"), module]
+        p = subprocess.run(cmd, cwd=cwd, stdout=subprocess.PIPE, stderr=subprocess.STDOUT, text=True)
+        if "The outcome is: NoError" not in p.stdout:
+            raise MachineryError("Apalache %s => %s (length %d) on %s did not pass (model bug):\n%s" % (init, inv, length, module, p.stdout[-2000:]))
+    shutil.rmtree(os.path.join(cwd, "_apalache-out"), ignore_errors=True)
+    return len(runs)
+
+
 def tlc_stats(out):
     """(generated, distinct) from TLC's output."""
     m = re.search(r"(\d+) states generated, (\d+) distinct states found", out)
